@@ -468,3 +468,18 @@ def test_c08_rl_writer_entry_point_works_without_a_status_callback():
     from mwlib.writers.rl import writer
     src = inspect.getsource(writer.RlWriter.renderBook)
     assert "if self.render_status:" in src
+
+
+# ---------------------------------------------------------------- wave 11 triggers (seeded changes; these pass on the unchanged tree)
+def test_c18_job_marked_by_qdrop_survives_a_restart_until_somebody_waited_for_it():
+    from mc.props.c18 import run_drop_history
+    for hist in ([("add", "j1"), ("ok", "j1"), ("drop", "j1"), ("restart", None)],
+                 [("add", 7), ("drop", 7), ("err", 7), ("restart", None), ("restart", None)]):
+        assert run_drop_history(hist) is None, hist
+
+
+def test_c10_text_that_begins_with_a_byte_order_mark_is_tiled_from_offset_0():
+    from mwlib.parser.token import utoken
+    from mc.props.c10 import check_tiling
+    for text in ("\ufeff", "\ufeff== heading ==\ntext\n", "\ufeff{|\n| a\n|}\n"):
+        assert check_tiling(text, utoken.scan(text)) is None, text
